@@ -16,7 +16,7 @@ for line in open(log, errors='replace'):
         cur = m.group(1); continue
     m = re.match(r'\s*Doc-tests (\S+)', line)
     if m:
-        cur = 'doc:' + m.group(1); continue
+        cur = 'doctest:' + m.group(1).replace('-', '_'); continue
     m = re.match(r'test (\S.*?) \.\.\. (ok|FAILED|ignored)', line)
     if m and cur:
         res[f'{cur}::{m.group(1)}'] = m.group(2)
